@@ -67,12 +67,13 @@ type Crash struct {
 }
 
 type SchedSpec struct {
-	Kind   string `json:"kind"` // uniform | pct | windowed
-	Picks  []int  `json:"picks,omitempty"`
-	Prio   []int  `json:"prio,omitempty"`
-	Change []int  `json:"change,omitempty"`
-	Order  []int  `json:"order,omitempty"`
-	K      []int  `json:"k,omitempty"`
+	Kind   string   `json:"kind"` // uniform | pct | windowed
+	Picks  []int    `json:"picks,omitempty"`
+	Prio   []int    `json:"prio,omitempty"`
+	Change []int    `json:"change,omitempty"`
+	Order  []int    `json:"order,omitempty"`
+	K      []int    `json:"k,omitempty"`
+	Segs   [][2]int `json:"segs,omitempty"` // segments: (process, number of steps), then round robin
 }
 
 type Case struct {
@@ -125,24 +126,24 @@ type version struct {
 
 // Result describes one execution.
 type Result struct {
-	Steps         int
-	Versions      int
-	Overlap       bool // two operations of different processes overlapped
-	OverlapCommit bool // ... and one of them was a compaction or a commit
-	LockContention bool
-	ListChangedMidOp int // list transitions while another process was mid-operation
-	CrashAfterRename bool
+	Steps                        int
+	Versions                     int
+	Overlap                      bool // two operations of different processes overlapped
+	OverlapCommit                bool // ... and one of them was a compaction or a commit
+	LockContention               bool
+	ListChangedMidOp             int // list transitions while another process was mid-operation
+	CrashAfterRename             bool
 	StaleTableUnlinkedBeforeOpen bool
-	ReadAfterForeignDelete bool
-	FailedOps     int
-	Killed        int
-	YieldsPerProc []int
-	Trace         []verifvfs.Event
-	Violation     error
-	ViewAtKill    *Store // committed state (decoded from disk) at the moment of the first kill
-	FinalView     *Store
-	InitialView   *Store
-	KilledAfterOwnRename bool
+	ReadAfterForeignDelete       bool
+	FailedOps                    int
+	Killed                       int
+	YieldsPerProc                []int
+	Trace                        []verifvfs.Event
+	Violation                    error
+	ViewAtKill                   *Store // committed state (decoded from disk) at the moment of the first kill
+	FinalView                    *Store
+	InitialView                  *Store
+	KilledAfterOwnRename         bool
 }
 
 type engine struct {
@@ -160,11 +161,11 @@ type engine struct {
 	versions []version
 	lastSeen []int // M10: last version index observed by each proc
 
-	lockOwner map[string]int // M8
-	created   map[string]int // M16: lock/temp files -> creator
-	everCommitted bool
-	traceDone int
-	res   Result
+	lockOwner       map[string]int // M8
+	created         map[string]int // M16: lock/temp files -> creator
+	everCommitted   bool
+	traceDone       int
+	res             Result
 	stepsSinceProbe int
 	// names each proc read from tables.list most recently (for the C10 class)
 	lastListRead map[int][]string
@@ -278,7 +279,9 @@ func storesEqual(a, b *Store) string {
 // ---------- monitors over trace events
 
 func isLock(p string) bool { return strings.HasSuffix(p, ".lock") }
-func isTemp(p string) bool { return strings.HasSuffix(p, ".reftmp") || strings.Contains(filepath.Base(p), "tmp") }
+func isTemp(p string) bool {
+	return strings.HasSuffix(p, ".reftmp") || strings.Contains(filepath.Base(p), "tmp")
+}
 
 func (e *engine) onEvent(ev verifvfs.Event) {
 	if ev.Mark {
@@ -439,13 +442,24 @@ func (e *engine) onListChange(ev verifvfs.Event) {
 		}
 	}
 	if op != nil && op.op.Kind == KExpire {
-		want := old.Clone()
-		want.Logs = map[string]gen.Log{}
-		for _, l := range model.Expire(old.SortedLogs(), *op.op.Exp) {
-			want.Logs[l.Key()] = l
-		}
-		if d := storesEqual(view, want); d == "" {
-			return
+		// An expiring compaction only rewrites the tables it locked; tables committed by
+		// other processes in the meantime keep their entries.  So: refs unchanged, nothing
+		// new appears, everything that is not expired stays, and whatever went is expired.
+		if DiffRefs(view.SortedRefs(), old.SortedRefs()) == "" {
+			ok := true
+			for k, l := range view.Logs {
+				if o, had := old.Logs[k]; !had || !o.Equal(l) {
+					ok = false
+				}
+			}
+			for _, l := range model.Expire(old.SortedLogs(), *op.op.Exp) {
+				if _, kept := view.Logs[l.Key()]; !kept {
+					ok = false
+				}
+			}
+			if ok {
+				return
+			}
 		}
 	}
 	what := "no operation in progress"
@@ -838,9 +852,37 @@ func (s *windowedStrategy) pick(e *engine, r []*verifvfs.Proc) *verifvfs.Proc {
 	return r[0]
 }
 
+// segmentStrategy runs (process, n steps) segments in order - any number of
+// context switches at chosen points - then lets the remaining processes
+// finish one after another.
+type segmentStrategy struct {
+	segs [][2]int
+	i    int
+	used int
+}
+
+func (s *segmentStrategy) pick(e *engine, r []*verifvfs.Proc) *verifvfs.Proc {
+	for s.i < len(s.segs) {
+		seg := s.segs[s.i]
+		if s.used < seg[1] {
+			for _, p := range r {
+				if p.ID == seg[0] {
+					s.used++
+					return p
+				}
+			}
+		}
+		s.i++
+		s.used = 0
+	}
+	return r[0]
+}
+
 func (e *engine) strategy() strategy {
 	sp := e.c.Sched
 	switch sp.Kind {
+	case "segments":
+		return &segmentStrategy{segs: sp.Segs}
 	case "pct":
 		ch := map[int]bool{}
 		for _, c := range sp.Change {
